@@ -1,4 +1,5 @@
 import CatiiProofs.Slices
+import CatiiProofs.SlicesGenBridge
 import CatiiProofs.Bridge
 import Mathlib.Data.List.Forall2
 /-!
@@ -28,6 +29,16 @@ theorem slices_are_labelled_columns (i : IIndex) (h : WF i) :
       ∀ r, denseAt p.2 r [] = denseAt i r hi) ∧
     (∀ hi ∈ hiCells (i.shape.drop 1), ∃ p ∈ i.slices, p.1 = hi) :=
   slices_labelled i h
+
+/-- the same for the slice iteration REGENERATED from `iindex.slices1d` on every run (`tools/translate_slices.py`: one bucket per
+position of the last axis, the entry losing that coordinate, the position prepended to the label, recursion on the shorter
+shape): every yielded pair is a column of the index labelled with its own higher coordinates, and every column is yielded -/
+theorem generated_slices_are_labelled_columns (i : IIndex) (h : WF i) :
+    (∀ p ∈ Gen.slices1dGen i.shape.length i [], ∃ hi ∈ hiCells (i.shape.drop 1),
+      p.1 = hi ∧ WF p.2 ∧ p.2.shape = [i.nrows] ∧ p.2.common = i.common ∧
+      ∀ r, denseAt p.2 r [] = denseAt i r hi) ∧
+    (∀ hi ∈ hiCells (i.shape.drop 1), ∃ p ∈ Gen.slices1dGen i.shape.length i [], p.1 = hi) := by
+  rw [gen_slices1d_eq]; exact slices_are_labelled_columns i h
 
 theorem mem_product {α : Type} (ls : List (List α)) (combo : List α) :
     combo ∈ product ls ↔ List.Forall₂ (fun x l => x ∈ l) combo ls := by
